@@ -185,7 +185,47 @@ func c13Tail(t uint64) (tail [24]byte) {
 	return
 }
 
+// c13Shared is ONE Checkers object with ONE mutable Reader, reused over a history (VH cases).
+type c13Shared struct {
+	reader   *c13Reader
+	checkers *eventcheck.Checkers
+}
+
+// VH ; V ... ; V ... ; ...   a history over one Checkers object: before every step the Reader's
+// current epoch and validator set are replaced by the step's; observation = the four codes per step.
 func c13Run(in []string) []string {
+	if in[0] != "VH" {
+		return c13RunOne(in, nil)
+	}
+	sh := &c13Shared{reader: &c13Reader{}}
+	sh.checkers = &eventcheck.Checkers{
+		Basiccheck:   basiccheck.New(),
+		Epochcheck:   epochcheck.New(sh.reader),
+		Parentscheck: parentscheck.New(),
+	}
+	var obs []string
+	var step []string
+	steps := 0
+	flush := func() {
+		if len(step) > 0 {
+			obs = append(obs, c13RunOne(step, sh)...)
+			steps++
+		}
+		step = nil
+	}
+	for _, t := range in[1:] {
+		if t == ";" {
+			flush()
+		} else {
+			step = append(step, t)
+		}
+	}
+	flush()
+	vu.Stat("history.steps=" + vu.Itoa(steps))
+	return obs
+}
+
+func c13RunOne(in []string, sh *c13Shared) []string {
 	c, _ := c13Parse(in)
 	// parents: real events, id computed by the real SetID / Build
 	parents := make(dag.Events, len(c.ps))
@@ -247,6 +287,13 @@ func c13Run(in []string) []string {
 		Basiccheck:   basiccheck.New(),
 		Epochcheck:   epochcheck.New(reader),
 		Parentscheck: parentscheck.New(),
+	}
+	if sh != nil { // history: the SAME objects, the Reader's answer replaced in place
+		if sh.reader.e != reader.e && sh.reader.v != nil {
+			vu.Stat("history.epoch_changed")
+		}
+		sh.reader.v, sh.reader.e = reader.v, reader.e
+		reader, checkers = sh.reader, sh.checkers
 	}
 	if c.mask&1 != 0 {
 		checkers.Basiccheck = nil // an empty struct whose methods never touch the receiver
@@ -529,6 +576,62 @@ func init() {
 						emit(c.tokens()...)
 					}
 				}
+			}
+			// histories over ONE Checkers object with a mutable Reader: the epoch advances / goes back, the
+			// validator set changes, between calls; late events of the previous epoch must be refused
+			nh := 60 + n/50
+			for i := 0; i < nh; i++ {
+				base := c13Valid(r, []uint32{1, 2, 3}[r.Intn(3)], r.Intn(3))
+				cp := func(c *c13Case) *c13Case {
+					d := *c
+					d.vals = append([]uint32{}, c.vals...)
+					d.ids = append([]*big.Int{}, c.ids...)
+					d.ps = append([]c13Parent{}, c.ps...)
+					return &d
+				}
+				var steps []*c13Case
+				steps = append(steps, cp(base)) // accepted under epoch N
+				cur := base.cur
+				for j, k := 0, 1+r.Intn(5); j < k; j++ {
+					c := cp(base)
+					switch r.Intn(7) {
+					case 0: // the epoch advanced: the same (now late) event again
+						cur++
+					case 1: // ... and back (a Reader may also go back, e.g. after a revert)
+						cur--
+					case 2: // same epoch, creator dropped from the validator set
+						var vs []uint32
+						for _, v := range c.vals {
+							if v != c.creator {
+								vs = append(vs, v)
+							}
+						}
+						c.vals = vs
+					case 3: // an event of the new current epoch
+						c.epoch = cur
+					case 4: // another event under the same reader state
+						c = c13Valid(r, 2, 1)
+						c.cur, c.epoch = cur, cur
+					case 5:
+						c13Mutate(r, c, r.Intn(c13NMut))
+					default: // nothing changed: same reader state, same event
+					}
+					if c.cur == base.cur {
+						c.cur = cur
+					}
+					c.mask = 0
+					if len(c.ids) != len(c.ps) { // keep the documented panic out of histories
+						c = cp(base)
+						c.cur = cur
+					}
+					steps = append(steps, c)
+				}
+				t := []string{"VH"}
+				for _, c := range steps {
+					t = append(t, ";")
+					t = append(t, c.tokens()...)
+				}
+				emit(t...)
 			}
 			// configuration / size sweep (always): parents lists of length 0..10, 40, 300; validator sets of
 			// 0, 1, 33, 65, 257, 1000; reader epoch 0 / MaxUint32; creator 0 / MaxUint32; every field at each
